@@ -7,6 +7,9 @@ set -e
 cd "$(dirname "$0")"
 export CARGO_NET_OFFLINE=true
 ROOT="$(pwd)"
+if [ -n "${MVV_REPO:-}" ] && [ "$MVV_REPO" != "/repo" ]; then
+  sed -i "s#path = \"/repo\"#path = \"$MVV_REPO\"#" harness/Cargo.toml downstream/Cargo.toml c14/Cargo.toml
+fi
 b() { # crate variant profile args...
   local crate="$1" variant="$2" prof="$3"; shift 3
   ( cd "$ROOT/$crate" && cargo build --offline --profile "$prof" --target-dir "$ROOT/target/$variant" "$@" ) 2>&1 | tail -n 2
